@@ -600,6 +600,127 @@ func (g *gen) lingering(i int) *Script {
 	return sc
 }
 
+// udpSwitch: automatic protocol over UDP, the liveness timer fires once while the caller sleeps: with no
+// UDP packet the client switches to TCP by itself (TEARDOWN, new connection, DESCRIBE, SETUPs, PLAY);
+// the reactions to those requests are mutated.  Compared with the model (`tick`).
+func (g *gen) udpSwitch(i int) *Script {
+	sc := &Script{Model: true, Name: fmt.Sprintf("switch-%d", i)}
+	sc.Cfg = Cfg{Proto: 0, Creds: g.chance(0.3), RTms: g.rt, UDPms: 200}
+	if sc.Cfg.Creds && g.chance(0.7) {
+		sc.ServerAuth = pickOf(g, "basic", "digest")
+	}
+	n := 1 + g.pick(2)
+	sc.Medias = g.medias(n, false, false)
+	sc.Prog = append(sc.Prog, Call{Api: "describe"})
+	for j := range n {
+		sc.Prog = append(sc.Prog, Call{Api: "setup", Media: j})
+	}
+	got := g.chance(0.25)
+	sc.Prog = append(sc.Prog, Call{Api: "play"}, Call{Api: "sleep", Ms: 200 + g.rt + 200, Got: got})
+	if g.chance(0.5) {
+		sc.Prog = append(sc.Prog, Call{Api: "pause"})
+	}
+	if got {
+		acts := []Action{{Kind: "resp"}}
+		for range 1 + g.pick(3) {
+			acts = append(acts, Action{Kind: "udp", Ch: g.pick(2), Payload: g.framePayload()})
+		}
+		sc.React = append(sc.React, Reaction{M: "PLAY", N: 1, Acts: acts, Abs: "r"})
+		return sc
+	}
+	// mutate what the server answers during the switch
+	for range 1 + g.pick(2) {
+		m := pickOf(g, "OPTIONS", "DESCRIBE", "SETUP", "SETUP", "PLAY", "TEARDOWN")
+		occ := 2
+		switch m {
+		case "SETUP":
+			occ = n + 1 + g.pick(n)
+		case "TEARDOWN":
+			occ = 1
+		}
+		dup := false
+		for _, r := range sc.React {
+			if r.M == m && r.N == occ {
+				dup = true
+			}
+		}
+		if dup {
+			continue
+		}
+		var inner piece
+		switch g.pick(6) {
+		case 0:
+			inner = g.mutStatus(m)
+		case 1:
+			inner = g.mutCSeq()
+		case 2:
+			inner = g.mutSession()
+		case 3:
+			if m == "SETUP" {
+				inner = g.mutTransport(sc)
+			} else if m == "DESCRIBE" {
+				inner = g.mutDescribe()
+			} else {
+				inner = respPiece("r")
+			}
+		default:
+			inner = respPiece("r")
+		}
+		ps := []piece{inner}
+		if g.chance(0.4) {
+			// during the switch SETUP is followed at once by PLAY, which flips allowInterleavedFrames: a
+			// frame written after the response races with it
+			ps = g.around(inner, m == "PLAY" || m == "SETUP")
+		}
+		for k, p := range ps {
+			if p.abs == "-stop" {
+				ps[k].abs = ""
+				for j := k + 1; j < len(ps); j++ {
+					ps[j].abs = ""
+				}
+			}
+		}
+		acts, abs, model := join(ps...)
+		for _, a := range acts {
+			if a.Kind == "sleep" && a.Ms > g.rt/2 {
+				model = false // would push the switch past the caller's sleep
+			}
+		}
+		sc.React = append(sc.React, Reaction{M: m, N: occ, Acts: acts, Abs: abs})
+		if !model {
+			sc.Model = false
+		}
+	}
+	return sc
+}
+
+// tunnelled: RTSP over HTTP (the handshake misbehaves, or it is correct and the conversation is
+// mutated as usual) and RTSP over WebSocket (hostile handshakes only); not modelled
+func (g *gen) tunnelled(i int) *Script {
+	sc := g.baseScript(g.chance(0.25))
+	sc.Name = fmt.Sprintf("tunnel-%d", i)
+	sc.Model = false
+	sc.Cfg.Proto = pickOf(g, 0, 3)
+	sc.Cfg.BackCh = false
+	for j := range sc.Medias {
+		sc.Medias[j].Back = false
+	}
+	if g.chance(0.2) {
+		sc.Cfg.Tunnel = 2
+		sc.Tun = pickOf(g, "status404", "garbage", "silence", "close", "half", "status500keep")
+		return sc
+	}
+	sc.Cfg.Tunnel = 1
+	if g.chance(0.55) {
+		sc.Tun = pickOf(g, "status404", "status500keep", "garbage", "silence", "close", "biglen", "chunked", "continue", "slow", "half", "hugeheader", "postclose", "postsilence", "postanswer")
+	}
+	for range g.pick(3) {
+		g.mutateOne(sc, g.chance(0.3))
+	}
+	sc.Model = false
+	return sc
+}
+
 // concurrent: Close() is called from another goroutine while a call is being served
 func (g *gen) concurrent(i int) *Script {
 	sc := g.baseScript(g.chance(0.3))
